@@ -445,12 +445,12 @@ def gen_cases(rng, tier):
     cases = []
     sweep = list(_sweep())
     if tier != "thorough":
-        sweep = rng.sample(sweep, 1300)
+        sweep = rng.sample(sweep, 1000)
     for sc in sweep:
         v = _mirror_valid(sc)
         if v is not None:
             cases.append({"in": _pack_case(v), "kind": "sweep"})
-    n = 20000 if tier == "thorough" else 1500
+    n = 20000 if tier == "thorough" else 1100
     while n > 0:
         v = _mirror_valid(_random_case(rng))
         if v is not None:
